@@ -8,7 +8,12 @@ hypotheses of the theorems, never by an axiom):
 
 * the pickler: a pair `dumps / loads` (`cashews/picklers.py`: pickle, json, dill, …, NonPickler);
 * the MAC: `mac : Digest → secret → message → Bytes` (`HashSigner._digestmods[label](secret, msg)`);
-* the registered custom encoders/decoders (`Serializer._type_mapping`) and `type(value).__name__`.
+* the registered custom encoders/decoders and `type(value).__name__`.
+
+The registry of custom types (`Serializer._type_mapping`) is a CLASS attribute that `register_type` updates at
+any time, before or after serializers and caches are built: it is not part of a serializer's configuration.
+It is therefore an explicit argument `reg` of `encode` and of `decode` — the registry *as it is when the call
+is made* — and the round-trip theorems of C09 speak about a write-time and a read-time registry.
 -/
 namespace CashewsVerif.Serial
 
@@ -37,6 +42,22 @@ def isDigits (b : Bytes) : Bool := !b.isEmpty && b.all isDigit
 
 /-- `int(b)` for a digit-only byte string (leading zeros allowed) -/
 def digitsVal (b : Bytes) : Nat := b.foldl (fun n c => 10 * n + (c.toNat - 48)) 0
+
+/-- `b"-"` -/
+def minus : UInt8 := 0x2d
+
+/-- the integer shortcut of `decode` (serialize.py, after the D28 repair c2826f4):
+`value.isdigit() or (value[:1] == b"-" and value[1:].isdigit())` -/
+def isIntLit (b : Bytes) : Bool :=
+  isDigits b || (match b with
+    | c :: r => c = minus && isDigits r
+    | [] => false)
+
+/-- `int(b)` for such a byte string -/
+def intVal (b : Bytes) : Int :=
+  match b with
+  | c :: r => if c = minus then -(digitsVal r : Int) else (digitsVal b : Int)
+  | [] => 0
 
 def isLowerHexChar (c : UInt8) : Bool := isDigit c || (0x61 ≤ c && c ≤ 0x66)
 
@@ -111,10 +132,27 @@ structure Cfg (α : Type) where
   pickler : Pickler α
   /-- `bytes(type(value).__name__, "utf8")` for values that are neither int nor bytes -/
   typeName : α → Bytes
-  /-- `Serializer._type_mapping` -/
-  registry : Bytes → Option (Codec α)
+
+/-- `Serializer._type_mapping`: class-level, shared by every serializer of the process, consulted afresh by every
+`encode` / `decode` call (`value_type in self._type_mapping`) -/
+abbrev Registry (α : Type) := Bytes → Option (Codec α)
 
 variable {α : Type}
+
+/-- no type registered -/
+def Registry.empty : Registry α := fun _ => none
+
+/-- `register_type(klass, encoder, decoder)`: `cls._type_mapping[bytes(klass.__name__, "utf8")] = (encoder, decoder)` —
+a dict assignment: a later registration under the same name replaces the pair -/
+def Registry.register (r : Registry α) (tag : Bytes) (c : Codec α) : Registry α :=
+  fun t => if t = tag then some c else r t
+
+/-- a sequence of `register_type` calls, oldest first -/
+def Registry.registerAll (r : Registry α) (l : List (Bytes × Codec α)) : Registry α :=
+  l.foldl (fun r tc => r.register tc.1 tc.2) r
+
+/-- every pair of `r` is still registered, unchanged, in `r'` (what registering further, new names gives) -/
+def Registry.le (r r' : Registry α) : Prop := ∀ tag c, r tag = some c → r' tag = some c
 
 /-! ### signing  (serialize.py:33-72) -/
 
@@ -179,17 +217,18 @@ def tagOf (cfg : Cfg α) : Val α → Bytes
   | .obj x => cfg.typeName x
 
 /-- `_custom_encode`: `value_type + b":" + encoded_value` for a registered type, else `None` -/
-def customEncode (cfg : Cfg α) (v : Val α) : Option Bytes :=
-  match cfg.registry (tagOf cfg v) with
+def customEncode (cfg : Cfg α) (reg : Registry α) (v : Val α) : Option Bytes :=
+  match reg (tagOf cfg v) with
   | none => none
   | some c => some (tagOf cfg v ++ colon :: c.enc v)
 
-/-- `Serializer.encode`: what is handed to the store (`none` = it raised). -/
-def encode (cfg : Cfg α) (key : Bytes) (v : Val α) : Option (Val α) :=
+/-- `Serializer.encode`: what is handed to the store (`none` = it raised); `reg` = the registry at the time of
+the call. -/
+def encode (cfg : Cfg α) (reg : Registry α) (key : Bytes) (v : Val α) : Option (Val α) :=
   match v with
   | .int i => some (.int i)
   | v =>
-    match customEncode cfg v with
+    match customEncode cfg reg v with
     | some b => sign cfg key (.bytes b)
     | none => sign cfg key (cfg.pickler.dumps v)
 
@@ -207,37 +246,39 @@ inductive Res (α : Type) where
 inductive Pre (α : Type) where
   | same                  -- `value is default`
   | pass (v : Val α)      -- not bytes: returned as is
-  | digit (n : Nat)       -- `value.isdigit()`: `int(value)`, no signature check
+  | digit (n : Int)       -- `value.isdigit()` or `-` + digits: `int(value)`, no signature check
   | dflt                  -- SignIsMissingError
   | unsecure              -- UnSecureDataError
   | custom (p : Bytes)    -- the signature verified and `p` is `registered type:…`: custom decoder, no unpickling (fix d1f0dd9)
   | loads (p : Bytes)     -- the signature verified: `pickler.loads(p)` is called
   deriving DecidableEq, Repr
 
-/-- `_is_custom_encoded`: `value.partition(b":")` has a separator and the part before it is a registered type -/
-def isCustomEncoded (cfg : Cfg α) (p : Bytes) : Bool :=
+/-- `_is_custom_encoded`: `value.partition(b":")` has a separator and the part before it is a registered type
+(`value_type in self._type_mapping`: the class-level registry as it is now, not as it was when the serializer
+was built) -/
+def isCustomEncoded (reg : Registry α) (p : Bytes) : Bool :=
   match splitFirst colon p with
   | none => false
-  | some (tag, _) => (cfg.registry tag).isSome
+  | some (tag, _) => (reg tag).isSome
 
 /-- first half of `decode` (up to and excluding `self._decode(value)`); `same` = `value is default` -/
-def preLoads (cfg : Cfg α) (key : Bytes) (w : Val α) (same : Bool) : Pre α :=
+def preLoads (cfg : Cfg α) (reg : Registry α) (key : Bytes) (w : Val α) (same : Bool) : Pre α :=
   if same then .same
   else match w with
     | .bytes b =>
-      if isDigits b then .digit (digitsVal b)
+      if isIntLit b then .digit (intVal b)
       else match checkSign cfg key b with
         | .missing => .dflt
         | .unsecure => .unsecure
-        | .ok p => if isCustomEncoded cfg p then .custom p else .loads p
+        | .ok p => if isCustomEncoded reg p then .custom p else .loads p
     | v => .pass v
 
 /-- `_custom_decode` -/
-def customDecode (cfg : Cfg α) (b : Bytes) : Res α :=
+def customDecode (reg : Registry α) (b : Bytes) : Res α :=
   match splitFirst colon b with
   | none => .dflt
   | some (tag, payload) =>
-    match cfg.registry tag with
+    match reg tag with
     | none => .dflt
     | some c =>
       match c.dec payload with
@@ -245,24 +286,24 @@ def customDecode (cfg : Cfg α) (b : Bytes) : Res α :=
       | some v => .value v
 
 /-- second half of `decode`, given what `loads p` did -/
-def postLoads (cfg : Cfg α) (p : Bytes) (r : Loaded α) : Res α :=
+def postLoads (reg : Registry α) (p : Bytes) (r : Loaded α) : Res α :=
   match r with
   | .attrError => .dflt
   | .other => .raised
-  | .unpickling => customDecode cfg p
-  | .ok (.bytes b) => customDecode cfg b
+  | .unpickling => customDecode reg p
+  | .ok (.bytes b) => customDecode reg b
   | .ok v => .value v
 
-/-- `Serializer.decode` -/
-def decode (cfg : Cfg α) (key : Bytes) (w : Val α) (same : Bool) : Res α :=
-  match preLoads cfg key w same with
+/-- `Serializer.decode`; `reg` = the registry at the time of the call -/
+def decode (cfg : Cfg α) (reg : Registry α) (key : Bytes) (w : Val α) (same : Bool) : Res α :=
+  match preLoads cfg reg key w same with
   | .same => .dflt
   | .pass v => .value v
   | .digit n => .value (.int n)
   | .dflt => .dflt
   | .unsecure => .unsecure
-  | .custom p => customDecode cfg p
-  | .loads p => postLoads cfg p (cfg.pickler.loads p)
+  | .custom p => customDecode reg p
+  | .loads p => postLoads reg p (cfg.pickler.loads p)
 
 
 /-! ### the glue in `cashews/backends/memory.py`: where encode / decode are called
@@ -277,24 +318,38 @@ def SStore.lookup : SStore α → Bytes → Option (Val α)
 
 /-- `Memory.set` (unconditional): `value = await self._serializer.encode(...)`, then `_set`; an exception
 of `encode` leaves the store untouched -/
-def SStore.set (cfg : Cfg α) (st : SStore α) (k : Bytes) (v : Val α) : SStore α :=
-  match encode cfg k v with
+def SStore.set (cfg : Cfg α) (reg : Registry α) (st : SStore α) (k : Bytes) (v : Val α) : SStore α :=
+  match encode cfg reg k v with
   | some w => (k, w) :: st
   | none => st
 
 /-- `Memory.get`: `default` for an absent key, else `self._serializer.decode(...)` -/
-def SStore.get (cfg : Cfg α) (st : SStore α) (k : Bytes) : Res α :=
+def SStore.get (cfg : Cfg α) (reg : Registry α) (st : SStore α) (k : Bytes) : Res α :=
   match st.lookup k with
   | none => .dflt
-  | some w => decode cfg k w false
+  | some w => decode cfg reg k w false
 
 /-- `Memory.set_many`: the same encode + `_set`, pair after pair -/
-def SStore.setMany (cfg : Cfg α) (st : SStore α) (pairs : List (Bytes × Val α)) : SStore α :=
-  pairs.foldl (fun s kv => SStore.set cfg s kv.1 kv.2) st
+def SStore.setMany (cfg : Cfg α) (reg : Registry α) (st : SStore α) (pairs : List (Bytes × Val α)) : SStore α :=
+  pairs.foldl (fun s kv => SStore.set cfg reg s kv.1 kv.2) st
 
 /-- `Memory.get_many`: the same `_get`, key after key -/
-def SStore.getMany (cfg : Cfg α) (st : SStore α) (keys : List Bytes) : List (Res α) :=
-  keys.map (SStore.get cfg st)
+def SStore.getMany (cfg : Cfg α) (reg : Registry α) (st : SStore α) (keys : List Bytes) : List (Res α) :=
+  keys.map (SStore.get cfg reg st)
+
+/-! ### the process over time: `register_type` calls interleaved with writes -/
+
+/-- one step of a process between the write and the read of a key: a `register_type` call (class level: it
+reaches every serializer of the process) or a write -/
+inductive Later (α : Type) where
+  | register (tag : Bytes) (c : Codec α)
+  | set (k : Bytes) (v : Val α)
+
+/-- the process state: the class-level registry and the store of one in-memory backend -/
+def runLater (cfg : Cfg α) : Registry α × SStore α → List (Later α) → Registry α × SStore α
+  | s, [] => s
+  | (reg, st), .register tag c :: r => runLater cfg (reg.register tag c, st) r
+  | (reg, st), .set k v :: r => runLater cfg (reg, st.set cfg reg k v) r
 
 /-! ### what `hexdigest().encode()` and `f"{s:x}".encode()` look like -/
 
